@@ -21,4 +21,25 @@ PROPS = {
             "TimeDelta values in (i64::MAX, u64::MAX] ns and Durations above i64::MAX ns are representable on the other side but rejected explicitly (Err), because chrono's API is i64 nanoseconds: counted as explicit rejection, not as a defect",
         ],
     },
+    "C02": {
+        "kani": ["crux_core"],
+        "verus": [],
+        "kani_timeout_quick": 420,
+        "kani_timeout_thorough": 3600,
+        "trusted_base": [
+            "Kani 0.68 / CBMC 6.11 (MIR->goto translation incl. dyn FnOnce/Fn calls through vtables, Arc/atomics treated sequentially) and its SAT back end",
+            "rustc MIR of crux_core, erased-serde 0.4.6 and serde (their real bodies are executed symbolically, not assumed)",
+        ],
+        "assumptions": [
+            "Resolve<Out>, Request<Op> and ResolveSerialized are parametric in Out/Op: proved at Out = u64 and u8 with fully symbolic values",
+            "continuations are modelled by recording closures (count, first two values, alive flag); what a real continuation does with the value (send into the task's private channel) is not decided here",
+            "in contract harnesses the continuations are zero-sized (Kani contract checking counts freeing a consumed Box as a write outside modifies(self))",
+        ],
+        "not_decided": [
+            "that no other task receives the value: rests on each resolve closure owning the only sender of a fresh channel (command/context.rs:52-104) - an ownership fact, unreachable for Kani (crossbeam ICE) and Verus (closures)",
+            "stream consumer ended and cleaned up => resolutions rejected: the Err(()) of the Many closure comes from futures mpsc unbounded_send on a closed channel (context.rs:84-91), modelled here by the alive flag",
+            "legacy capability futures (capability/shell_request.rs, shell_stream.rs): mutex + waker + weak reference, not reachable",
+            "Core::resolve and Bridge::handle_response wrappers (they reach crossbeam channels)",
+        ],
+    },
 }
